@@ -167,6 +167,19 @@ fn grid(check: &Check) {
                 }
             }
         }
+        // skeletons above the range of a byte-wide bone index: 255/256/300 bones, vertices that use the two highest
+        // indices a byte can hold for that skeleton (254/255 once the model has 256 bones or more)
+        for nb in [255usize, 256, 300] {
+            let mut spec = only_section(full_spec(ver, 2, false, false), None, true);
+            spec.bones = (0..nb).map(|i| crate::spec::BoneSpec { seed: 9000 + i as u32, parent: if i == 0 { -1 } else { (i - 1) as i16 }, t: None, r: None, s: None }).collect();
+            spec.vertices = (0..6u32)
+                .map(|i| crate::spec::VertexSpec { seed: 77 + i, weights: [[255, 0, 0, 0], [128, 127, 0, 0], [0, 0, 0, 0]][i as usize % 3], indices: { let top = (nb - 1).min(255) as u8; [[top, 0, 0, 0], [top - 1, top, 0, 0], [top, top, top, top]][i as usize / 2] }, tc2: false })
+                .collect();
+            let mut c = ModelCase { spec, target: ver, via_converter: false };
+            x.apply(&mut c);
+            check.bump("grid:many-bones", 1);
+            direct(check, jm(&c), || run_model(check, "grid:", &c));
+        }
         // intermediate build numbers of the version: full model and every section alone
         let inter: &[u32] = match ver {
             Ver::Vanilla => &[257, 258, 259],
